@@ -27,9 +27,11 @@ def run(ctx, F, cg):
     replays = any(p.endswith("Wal::replay") for p in par)
     ctx.note("recover() reaches Wal::replay: %s" % replays)
     variants_seen = {}
+    from ..wrappers import thin_wrappers
+    APPENDW = thin_wrappers(F, lambda c_: c_.endswith("wal::Wal::append"), "samyama::persistence::PersistenceManager::")
     for p, r in sorted(fns.items()):
         b = Body(F.mir(p), r)
-        appends = [c for c in b.calls() if c.path.endswith("wal::Wal::append")]
+        appends = [c for c in b.calls() if c.path.endswith("wal::Wal::append") or (c.path in APPENDW and c.path != p)]
         if not appends:
             continue
         ctx.saw_fn(p); ctx.saw_calls(len(b.calls()))
